@@ -21,7 +21,23 @@ Definition tree_ok (t : tree) : Prop :=
 
 (* position whose covering edges the arrays hold; the edge counter is their number *)
 Definition cur_x (t : tree) : Z := if t_index t =? -1 then -1 else bp ts (t_index t).
-Definition ne_ok (t : tree) : Prop := t_num_edges t = num_edges_at ts (cur_x t).
+Definition cnt_ok (t : tree) : Prop := t_num_edges t = num_edges_at ts (cur_x t).
+(* the site list is that of the current tree (empty in the null state): holds since the
+   repair of tsk_tree_clear (9583b70) *)
+Definition sites_ok (t : tree) : Prop := t_sites t = sites_at ts (t_index t).
+Definition ne_ok (t : tree) : Prop := cnt_ok t /\ sites_ok t.
+
+Lemma sites_step t t2 t3 : sites_ok t -> t_sites t2 = t_sites t ->
+  update_index_and_interval ts t2 = Ok t3 -> p_index (t_pos t2) <> -1 -> sites_ok t3.
+Proof.
+  intros Hs E U N. unfold sites_ok. pose proof (update_index _ _ _ U) as (U1 & _). rewrite U1.
+  unfold update_index_and_interval in U. unfold sites_at at 1.
+  replace (p_index (t_pos t2) =? -1) with false by lia.
+  destruct (0 <? ts_nsites ts) eqn:Z.
+  - inv_bind U as s0 Hs0. injection U as <-. simpl. rewrite Hs0. reflexivity.
+  - cbn [bind] in U. injection U as <-. simpl. rewrite E, Hs. unfold sites_at. rewrite Z.
+    destruct (t_index t =? -1); reflexivity.
+Qed.
 
 (* ---- which edges a cursor range visits ---- *)
 
@@ -243,7 +259,9 @@ Proof.
 Qed.
 
 Lemma ne_ok_clear t : ne_ok (tree_clear core ts t).
-Proof. unfold ne_ok, cur_x, tree_clear; simpl. symmetry. apply (num_edges_outside ts V). lia. Qed.
+Proof.
+  split; [unfold cnt_ok, cur_x, tree_clear; simpl; symmetry; apply (num_edges_outside ts V); lia|reflexivity].
+Qed.
 
 Lemma tree_clear_ok t : tree_ok t -> tree_ok (tree_clear core ts t) /\ t_index (tree_clear core ts t) = -1.
 Proof.
@@ -256,7 +274,9 @@ Proof.
 Qed.
 
 Lemma ne_ok_init : ne_ok (tree_init ts).
-Proof. unfold ne_ok, cur_x, tree_init; simpl. symmetry. apply (num_edges_outside ts V). lia. Qed.
+Proof.
+  split; [unfold cnt_ok, cur_x, tree_init; simpl; symmetry; apply (num_edges_outside ts V); lia|reflexivity].
+Qed.
 
 Lemma tree_init_ok : tree_ok (tree_init ts) /\ t_index (tree_init ts) = -1.
 Proof.
@@ -335,15 +355,15 @@ Proof.
         destruct F as (F1 & F2 & F3 & F4 & F5 & F6 & F7 & F8). simpl in F4.
         destruct (update_ok t2) as [t3 U]; [rewrite F4; simpl; fold T; lia|].
         rewrite U. cbn [bind]. eexists; eexists; split; [reflexivity|].
-        apply update_index in U as (U1 & U2 & U3 & U4 & U5 & U6 & U7).
+        pose proof U as U0. apply update_index in U as (U1 & U2 & U3 & U4 & U5 & U6 & U7).
         split; [|split].
         -- unfold tree_ok. rewrite U1, U2, U3, U4, F4. simpl. repeat split. right.
            split.
            ++ rewrite <- EP, Hk. apply next_pos_ok; fold T; lia.
            ++ destruct A2 as [A21 A22]. unfold arrays_at. rewrite U5, U6. split; assumption.
         -- rewrite U1, F4. simpl. unfold nxt. fold k'. rewrite Hk. replace (0 =? T) with false by lia. reflexivity.
-        -- intros Hn. unfold ne_ok, cur_x. rewrite U7, U1, F4. simpl. apply NE2. simpl.
-           unfold ne_ok, cur_x in Hn. rewrite I0 in Hn. exact Hn.
+        -- intros [Hn Hs]. split; [|apply (sites_step t t2 t3 Hs); [exact F6|exact U0|rewrite F4; simpl; lia]]. unfold cnt_ok, cur_x. rewrite U7, U1, F4. simpl. apply NE2. simpl.
+           unfold cnt_ok, cur_x in Hn. rewrite I0 in Hn. exact Hn.
     + (* from tree k to tree k + 1 *)
       assert (Hk : 0 <= k' < T) by (unfold k'; lia).
       assert (EP : next_pos ts k' = mkPos k' (bp ts k') (bp ts (k' + 1)) DFwd
@@ -362,15 +382,15 @@ Proof.
         destruct F as (F1 & F2 & F3 & F4 & F5 & F6 & F7 & F8). simpl in F4.
         destruct (update_ok t2) as [t3 U]; [rewrite F4; simpl; fold T; lia|].
         rewrite U. cbn [bind]. eexists; eexists; split; [reflexivity|].
-        apply update_index in U as (U1 & U2 & U3 & U4 & U5 & U6 & U7).
+        pose proof U as U0. apply update_index in U as (U1 & U2 & U3 & U4 & U5 & U6 & U7).
         split; [|split].
         -- unfold tree_ok. rewrite U1, U2, U3, U4, F4. simpl. repeat split. right.
            split.
            ++ rewrite <- EP. apply next_pos_ok; fold T; lia.
            ++ destruct A2 as [A21 A22]. unfold arrays_at. rewrite U5, U6. split; assumption.
         -- rewrite U1, F4. simpl. unfold nxt. fold k'. replace (k' =? T) with false by lia. reflexivity.
-        -- intros Hn. unfold ne_ok, cur_x. rewrite U7, U1, F4. simpl. replace (k' =? -1) with false by lia.
-           apply NE2. simpl. unfold ne_ok, cur_x in Hn. replace (t_index t =? -1) with false in Hn by lia. exact Hn.
+        -- intros [Hn Hs]. split; [|apply (sites_step t t2 t3 Hs); [exact F6|exact U0|rewrite F4; simpl; lia]]. unfold cnt_ok, cur_x. rewrite U7, U1, F4. simpl. replace (k' =? -1) with false by lia.
+           apply NE2. simpl. unfold cnt_ok, cur_x in Hn. replace (t_index t =? -1) with false in Hn by lia. exact Hn.
 Qed.
 
 (* ---- tsk_tree_prev ---- *)
@@ -427,15 +447,15 @@ Proof.
         destruct F as (F1 & F2 & F3 & F4 & F5 & F6 & F7 & F8). simpl in F4.
         destruct (update_ok t2) as [t3 U]; [rewrite F4; simpl; fold T; lia|].
         rewrite U. cbn [bind]. eexists; eexists; split; [reflexivity|].
-        apply update_index in U as (U1 & U2 & U3 & U4 & U5 & U6 & U7).
+        pose proof U as U0. apply update_index in U as (U1 & U2 & U3 & U4 & U5 & U6 & U7).
         split; [|split].
         -- unfold tree_ok. rewrite U1, U2, U3, U4, F4. simpl. repeat split. right.
            split.
            ++ rewrite <- EP. apply prev_pos_ok; fold T; lia.
            ++ destruct A2 as [A21 A22]. unfold arrays_at. rewrite U5, U6. split; assumption.
         -- rewrite U1, F4. simpl. unfold prv. rewrite I0. reflexivity.
-        -- intros Hn. unfold ne_ok, cur_x. rewrite U7, U1, F4. simpl. replace (T - 1 =? -1) with false by lia.
-           apply NE2. simpl. unfold ne_ok, cur_x in Hn. rewrite I0 in Hn. simpl in Hn. rewrite Hn.
+        -- intros [Hn Hs]. split; [|apply (sites_step t t2 t3 Hs); [exact F6|exact U0|rewrite F4; simpl; lia]]. unfold cnt_ok, cur_x. rewrite U7, U1, F4. simpl. replace (T - 1 =? -1) with false by lia.
+           apply NE2. simpl. unfold cnt_ok, cur_x in Hn. rewrite I0 in Hn. simpl in Hn. rewrite Hn.
            rewrite !(num_edges_outside ts V); [reflexivity|right; unfold T; rewrite (v_bpT ts V); lia|lia].
     + (* from tree k to tree k - 1 *)
       assert (Hk : k = t_index t) by (subst k; replace (t_index t =? -1) with false by lia; reflexivity).
@@ -457,15 +477,15 @@ Proof.
         destruct F as (F1 & F2 & F3 & F4 & F5 & F6 & F7 & F8). simpl in F4.
         destruct (update_ok t2) as [t3 U]; [rewrite F4; simpl; fold T; lia|].
         rewrite U. cbn [bind]. eexists; eexists; split; [reflexivity|].
-        apply update_index in U as (U1 & U2 & U3 & U4 & U5 & U6 & U7).
+        pose proof U as U0. apply update_index in U as (U1 & U2 & U3 & U4 & U5 & U6 & U7).
         split; [|split].
         -- unfold tree_ok. rewrite U1, U2, U3, U4, F4. simpl. repeat split. right.
            split.
            ++ rewrite <- EP. apply prev_pos_ok; fold T; lia.
            ++ destruct A2 as [A21 A22]. unfold arrays_at. rewrite U5, U6. split; assumption.
         -- rewrite U1, F4. simpl. unfold prv. fold k. replace (k =? -1) with false by lia. reflexivity.
-        -- intros Hn. unfold ne_ok, cur_x. rewrite U7, U1, F4. simpl. replace (k - 1 =? -1) with false by lia.
-           apply NE2. simpl. unfold ne_ok, cur_x in Hn. fold k in Hn. replace (k =? -1) with false in Hn by lia. exact Hn.
+        -- intros [Hn Hs]. split; [|apply (sites_step t t2 t3 Hs); [exact F6|exact U0|rewrite F4; simpl; lia]]. unfold cnt_ok, cur_x. rewrite U7, U1, F4. simpl. replace (k - 1 =? -1) with false by lia.
+           apply NE2. simpl. unfold cnt_ok, cur_x in Hn. fold k in Hn. replace (k =? -1) with false in Hn by lia. exact Hn.
 Qed.
 
 (* ---- tsk_search_sorted on the breakpoints ---- *)
@@ -588,10 +608,10 @@ Proof.
       destruct Fr as (Fr1 & Fr2 & Fr3 & Fr4 & Fr5 & Fr6 & Fr7 & Fr8). simpl in Fr4.
       destruct (update_ok t2) as [t3 U]; [rewrite Fr4; simpl; fold T; lia|].
       rewrite U. eexists; split; [reflexivity|].
-      apply update_index in U as (U1 & U2 & U3 & U4 & U5 & U6 & U7).
+      pose proof U as U0. apply update_index in U as (U1 & U2 & U3 & U4 & U5 & U6 & U7).
       rewrite U1, Fr4. simpl. split; [|split; [split; [fold T; lia|exact Hb]|]].
-      2:{ intros Hn. unfold ne_ok, cur_x. rewrite U7, U1, Fr4. simpl. replace (k =? -1) with false by lia.
-          apply NE2. simpl. unfold ne_ok, cur_x in Hn. rewrite I0 in Hn. exact Hn. }
+      2:{ intros [Hn Hs]. split; [|apply (sites_step t t2 t3 Hs); [exact Fr6|exact U0|rewrite Fr4; simpl; lia]]. unfold cnt_ok, cur_x. rewrite U7, U1, Fr4. simpl. replace (k =? -1) with false by lia.
+          apply NE2. simpl. unfold cnt_ok, cur_x in Hn. rewrite I0 in Hn. exact Hn. }
       unfold tree_ok. rewrite U1, U2, U3, U4, Fr4. simpl. repeat split. right. split.
       * unfold pos_ok; simpl. fold T. repeat split; lia.
       * destruct A2 as [A21 A22]. unfold arrays_at. rewrite U5, U6. split; assumption.
@@ -633,10 +653,10 @@ Proof.
       destruct Fr as (Fr1 & Fr2 & Fr3 & Fr4 & Fr5 & Fr6 & Fr7 & Fr8). simpl in Fr4.
       destruct (update_ok t2) as [t3 U]; [rewrite Fr4; simpl; fold T; lia|].
       rewrite U. eexists; split; [reflexivity|].
-      apply update_index in U as (U1 & U2 & U3 & U4 & U5 & U6 & U7).
+      pose proof U as U0. apply update_index in U as (U1 & U2 & U3 & U4 & U5 & U6 & U7).
       rewrite U1, Fr4. simpl. split; [|split; [split; [fold T; lia|exact Hb]|]].
-      2:{ intros Hn. unfold ne_ok, cur_x. rewrite U7, U1, Fr4. simpl. replace (k =? -1) with false by lia.
-          apply NE2. simpl. unfold ne_ok, cur_x in Hn. rewrite I0 in Hn. exact Hn. }
+      2:{ intros [Hn Hs]. split; [|apply (sites_step t t2 t3 Hs); [exact Fr6|exact U0|rewrite Fr4; simpl; lia]]. unfold cnt_ok, cur_x. rewrite U7, U1, Fr4. simpl. replace (k =? -1) with false by lia.
+          apply NE2. simpl. unfold cnt_ok, cur_x in Hn. rewrite I0 in Hn. exact Hn. }
       unfold tree_ok. rewrite U1, U2, U3, U4, Fr4. simpl. repeat split. right. split.
       * unfold pos_ok; simpl. fold T. fold b. repeat split; lia.
       * destruct A2 as [A21 A22]. unfold arrays_at. rewrite U5, U6. split; assumption.
